@@ -11,6 +11,7 @@ import (
 	"time"
 
 	fixgen "github.com/b2broker/simplefix-go/tests/fix44"
+	"github.com/b2broker/simplefix-go/utils"
 	"vlib"
 	"vsched"
 )
@@ -34,6 +35,34 @@ func c15Run(c c15Case) (string, string) {
 		buf = c.Buf
 	}
 	w := newWorld(wcfg{Role: c.Role, Buf: buf, HbMin: 1, HbMax: 60, HbInt: c.HB, CloseTimeout: ct, LogonTimeout: time.Duration(c.LogonMs) * time.Millisecond})
+	if c.Ending == "logout-in-logon-callback" {
+		// the application logs the peer out from inside its logon callback (and has callbacks on the events that
+		// follows): state changes nest inside a callback
+		requested := 0
+		w.s.OnChangeState(utils.EventRequest, func() bool { requested++; return true })
+		w.s.OnChangeState(utils.EventLogon, func() bool { _ = w.s.Logout(); return true })
+		outs := w.logonOK(c.HB)
+		// one Logon either way: the acceptor's answer, or the initiator's own request (sent when the session was started)
+		if countType(outs, "A") != 1 || countType(outs, "5") != 1 {
+			return "logout-in-callback:logon-answer-or-logout-missing", fmt.Sprintf("outs=[%s]", outsStr(outs))
+		}
+		if w.s.IsLogged() {
+			return "local-logout:still-logged", ""
+		}
+		w.in(w.msg("5"))
+		if outs = w.take(); countType(outs, "5") != 0 {
+			return "local-logout:second-logout-on-answer", fmt.Sprintf("outs=[%s]", outsStr(outs))
+		}
+		if w.logoutEv != 1 {
+			return "local-logout:no-logout-event", fmt.Sprintf("EventLogout raised %d times", w.logoutEv)
+		}
+		w.h.Stop()
+		vsched.Settle()
+		if !w.runDone {
+			return "logout-in-callback:handler-does-not-stop", ""
+		}
+		return "", ""
+	}
 	w.logonOK(c.HB)
 	if !w.s.IsLogged() {
 		return "setup:not-logged", ""
@@ -243,6 +272,9 @@ func runC15(R *vlib.Out) {
 	for _, role := range []string{"acc", "ini"} {
 		for _, ct := range closeTimeouts {
 			for _, p := range prefixes {
+				if len(p) == 0 && !try(c15Case{Role: role, CloseMs: ct, Ending: "logout-in-logon-callback", HB: 30}) {
+					return
+				}
 				if !try(c15Case{Role: role, CloseMs: ct, Prefix: p, Ending: "peer-logout", HB: 30}) {
 					return
 				}
